@@ -445,6 +445,134 @@ func vfC06QueuedWrites(t *testing.T, res *vfResult, idx int) {
 	synctest.Wait()
 }
 
+// vfC06EarlyDuplicates: the side that finished first writes while the other still waits for the end of the handshake
+// (its last flight, or the acknowledgement of it, was lost), and the network duplicates those early datagrams. What
+// is accepted before the handshake is complete is kept for the first Read calls - once.
+func vfC06EarlyDuplicates(t *testing.T, res *vfResult, idx int) {
+	res.Eval(1)
+	var vs []vfVariant
+	for _, v := range vfC02Variants() {
+		switch v.Name {
+		case "13-direct", "13-hrr", "13-clientauth", "dualstack-both-nohv", "12-ecdsa", "12-psk", "12-resumed":
+			vs = append(vs, v)
+		}
+	}
+	v := vs[idx%len(vs)]
+	// the last thing the side that finishes first sends for the handshake is lost once (DTLS 1.2: the first datagram
+	// carrying its ChangeCipherSpec; DTLS 1.3: the server's first `lose` protected datagrams after the client's
+	// Finished flight, i.e. its ACK and ticket); every protected datagram after that is delivered twice
+	lose := 1 + (idx/len(vs))%3
+	id := fmt.Sprintf("early-duplicates/%s/lose%d", v.Name, lose)
+	var cS, sS *vfMemStore
+	if v.Cfg.Store {
+		cS, sS = vfNewMemStore("c"), vfNewMemStore("s")
+	}
+	if v.Resumed {
+		co, so := v.Cfg.Options(cS, sS)
+		p0, err := vfNewPair(vfNewNet(), co, so)
+		if err != nil {
+			return
+		}
+		if ce, se := p0.Handshake(time.Minute); ce != nil || se != nil {
+			p0.Close()
+			synctest.Wait()
+
+			return
+		}
+		p0.Close()
+		synctest.Wait()
+	}
+	n := vfNewNet()
+	n.stormCap = 30000
+	var mu sync.Mutex
+	lostCCS := map[string]bool{}
+	clientProtected, serverLost, duplicated := false, 0, 0
+	n.SetOnSend(func(n *vfNet, w *vfWire) {
+		from := vfAddrOf(w.From)
+		recs, ok := vfParseDatagram(w.Data, 0)
+		protected, ccs, unified := false, false, len(w.Data) > 0 && w.Data[0]&0xe0 == 0x20
+		if ok {
+			for _, rc := range recs {
+				if !rc.Unified && rc.Type == 20 {
+					ccs = true
+				}
+				if rc.Unified || rc.Epoch > 0 {
+					protected = true
+				}
+			}
+		} else {
+			protected = true // connection-ID framing this parser was not told about
+		}
+		mu.Lock()
+		drop := false
+		switch {
+		case ccs && !lostCCS[w.From] && !lostCCS["any"]:
+			lostCCS[w.From], lostCCS["any"] = true, true
+			drop = true
+		case unified && w.From == "c":
+			clientProtected = true
+		case unified && w.From == "s" && clientProtected && serverLost < lose:
+			serverLost++
+			drop = true
+		}
+		dup := !drop && protected && (lostCCS["any"] || serverLost > 0)
+		if dup {
+			duplicated++
+		}
+		mu.Unlock()
+		if drop {
+			return
+		}
+		n.Deliver(w.Dst, w.Data, from)
+		if dup {
+			n.Deliver(w.Dst, w.Data, from)
+		}
+	})
+	co, so := v.Cfg.Options(cS, sS)
+	p, err := vfNewPair(n, co, so)
+	if err != nil {
+		res.Count("config_rejected", 1)
+
+		return
+	}
+	p.Early = 3
+	p.HandshakeTimed(2 * time.Minute)
+	if p.C.Err != nil || p.S.Err != nil {
+		res.Count("early_duplicates_handshake_failed", 1)
+		p.Close()
+		synctest.Wait()
+
+		return
+	}
+	p.C.StartPump()
+	p.S.StartPump()
+	time.Sleep(3 * time.Second)
+	synctest.Wait()
+	res.NonTrivial(id)
+	res.Count("early_duplicate_cases", 1)
+	mu.Lock()
+	res.Count("early_duplicate_datagrams_delivered_twice", int64(duplicated))
+	mu.Unlock()
+	for _, side := range []*vfSide{p.C, p.S} {
+		seen := map[string]int{}
+		for _, r := range side.ReadsSnapshot() {
+			seen[string(r)]++
+		}
+		for pl, k := range seen {
+			if strings.HasPrefix(pl, "early-") {
+				res.Count("early_payloads_delivered", 1)
+			}
+			if k > 1 {
+				res.Violate("C06:delivered-twice:early-application-data:"+vfVerClass(v),
+					fmt.Sprintf("%s: Read on %s returned the payload %q %d times (written once by the peer as soon as its own handshake was done; its datagram was duplicated while %s still waited for the end of the handshake)", id, side.Name, pl, k, side.Name),
+					map[string]any{"early_dup": idx})
+			}
+		}
+	}
+	p.Close()
+	synctest.Wait()
+}
+
 func TestVF_C06(t *testing.T) {
 	vfGetPKI()
 	res := vfNewResult("C06", "arrival scripts over captured application records: exhaustive for all scripts of length <= n+2 over n <= 3 (quick) / 4 "+
@@ -598,6 +726,11 @@ func TestVF_C06(t *testing.T) {
 	vfBubbles(t, vfPick(6, 40)*len(vfC06Cfgs()), func(t *testing.T, i int) { vfC06LastWords(t, res, i) })
 	vfBubbles(t, vfPick(24, 200), func(t *testing.T, i int) { vfC06ReplayAcrossExport(t, res, i) })
 	vfBubbles(t, vfPick(18, 180), func(t *testing.T, i int) { vfC06QueuedWrites(t, res, i) })
+	vfBubbles(t, 42, func(t *testing.T, i int) { vfC06EarlyDuplicates(t, res, i) })
+	// a record delayed past a key update in an epoch that has seen more than 2^16 records (the wire carries 16 bits)
+	vfBubbles(t, vfPick(1, 3), func(t *testing.T, i int) {
+		vfC20Straggler(t, res, []string{"13-GCM128", "13-CHACHA", "13-GCM256"}[i], []int{65536 + 40, 2*65536 + 7, 65536 + 1}[i], []string{"c", "s", "c"}[i])
+	})
 	vfCaseName = nil
 	res.Floor("duplicate_arrivals_rejected", 100)
 	res.Floor("reordered_accepted", 100)
